@@ -204,6 +204,19 @@ func Run(r *mc.Run) {
 			return true
 		})
 
+	large := largeSlices()
+	r.Scenario("sort-large-slices", map[string]interface{}{"slices": len(large), "lengths": "13..90", "family": "rotations, reversal, adjacent transpositions, stride interleavings, duplicates of a 45-element chain with equal-but-different spellings"}, len(large), func(i int, st *mc.Stats) bool {
+		st.Evals++
+		st.Nontrivial++
+		if v := checkSort("sort-large-slices", SortIn{large[i]}); v != nil {
+			st.Violate(v)
+			st.Class("broken:" + v.Clause)
+		} else {
+			st.Class("sorted")
+		}
+		return true
+	})
+
 	// sorting: all sequences of length <= L over a 12-element set with equal-but-different spellings
 	set := []V3{{0, "1.0", ""}, {0, "1.00", ""}, {0, "1.0", "0"}, {0, "1.0~rc1", ""}, {0, "1.0+b1", ""}, {0, "1.0a", ""},
 		{0, "1.0", "1"}, {0, "1.0.", ""}, {1, "0.1", ""}, {0, "1.0~~", ""}, {0, "9", ""}, {0, "10", ""},
@@ -264,9 +277,52 @@ func Run(r *mc.Run) {
 	})
 }
 
+// largeSlices: slices longer than the small-input paths of the sort package (insertion sort up to 12 elements, then
+// pattern-defeating quicksort with its own thresholds): for a 40-element chain with equal-but-different spellings every
+// rotation, the reversal, every adjacent transposition, every interleaving of the two halves by a stride, and the same
+// with each element duplicated.
+func largeSlices() [][]V3 {
+	var chain []V3
+	for i := 0; i < 20; i++ {
+		chain = append(chain, V3{0, fmt.Sprintf("1.%d", i), ""}, V3{0, fmt.Sprintf("1.%d", i), "0"})
+	}
+	chain = append(chain, V3{0, "1.5~rc1", ""}, V3{0, "1.05", ""}, V3{1, "0.1", ""}, V3{0, "1.19+b1", "1"}, V3{0, "1.19", "1~"})
+	n := len(chain)
+	var out [][]V3
+	for r := 0; r < n; r++ {
+		out = append(out, append(append([]V3{}, chain[r:]...), chain[:r]...))
+	}
+	rev := make([]V3, n)
+	for i := range chain {
+		rev[n-1-i] = chain[i]
+	}
+	out = append(out, rev)
+	for i := 0; i+1 < n; i++ {
+		t := append([]V3{}, chain...)
+		t[i], t[i+1] = t[i+1], t[i]
+		out = append(out, t)
+		t2 := append([]V3{}, rev...)
+		t2[i], t2[i+1] = t2[i+1], t2[i]
+		out = append(out, t2)
+	}
+	for stride := 2; stride <= 7; stride++ {
+		var t []V3
+		for o := 0; o < stride; o++ {
+			for i := o; i < n; i += stride {
+				t = append(t, chain[i])
+			}
+		}
+		out = append(out, t, append(append([]V3{}, t...), t...))
+	}
+	for _, m := range []int{13, 16, 17, 32, 33} {
+		out = append(out, append([]V3{}, rev[:m]...), append([]V3{}, chain[n-m:]...))
+	}
+	return out
+}
+
 func Replay(scenario string, raw json.RawMessage) []*mc.Violation {
 	var out []*mc.Violation
-	if scenario == "sort-all-sequences" {
+	if scenario == "sort-all-sequences" || scenario == "sort-large-slices" {
 		var in SortIn
 		if mc.UnmarshalInput(raw, &in) == nil {
 			if v := checkSort(scenario, in); v != nil {
